@@ -1226,6 +1226,99 @@ def gen_attrs(full):
                     yield c
 
 
+STAFF_ALPHA = list(range(1, 10)) + [10, 12, 20, 100]  # (two-digit staves: repaired in /repo 712cc20)
+VOICE_PAIR_ALPHA = [1, 2, 9, 10, 11, 12, 20, 100]
+VOICE_TEXT_ALPHA = [1, 2, 9, 10, 11, 12, 19, 20, 21, 99, 100, 101, 110, 1000]
+VOICE_KINDS = ("plain", "chord", "tie", "grace", "art")
+
+
+def voice_alphabet(full):
+    """voice numbers of one, two, three and four digits (every number up to 24 / 130, then the digit-boundary values)"""
+    return list(range(1, 131 if full else 25)) + ([] if full else [29, 30, 31, 40, 50, 90, 99, 100, 101, 109, 110, 111, 120]) + \
+        [199, 200, 255, 999, 1000, 1001]
+
+
+def delete_notes(c, sids):
+    """the score notes `sids` of the all-matched case c become deletions, their performed notes insertions"""
+    pids = {a[1]: a[2] for a in c["align"] if a[0] == "match"}
+    c["align"] = [a if a[1] not in sids else ["deletion", a[1], None, None] for a in c["align"]]
+    for s in sids:
+        c["align"].append(["insertion", None, pids[s], None])
+    return c
+
+
+def gen_voices(full):
+    """voice and staff NUMBERS (the written attribute is the decimal number: v<voice>, staff<staff>).
+
+    A  numbers: two 4/4 half bars; a plain note (voice 1, staff 1) and a note X with voice v x staff s x X matched / deleted,
+       v over voice_alphabet (all of 1..24 [1..130 thorough] and the digit-boundary values up to 1001), s in 1..9
+    B  note kinds: layer 1 = three notes in voice v1 on staff 1, layer 2 = voice v2 on staff 2 holding one of VOICE_KINDS
+       (plain notes / a two-note chord / a chain tied over the barline / a grace note and its main note / a note with
+       articulations and a fingering); all ordered pairs v1 != v2 over VOICE_PAIR_ALPHA x kind x layer 2 matched / deleted
+    C  parts numbered the MusicXML way (4 voices per staff: voice k on staff (k-1)//4 + 1): the first k voices, k = 1..16
+       (1..36 thorough: 9 staves), one note per voice sounding together; all matched / every other voice deleted
+    D  hand-written files of every dialect: voice of the middle score note over VOICE_TEXT_ALPHA x staff {1, 2, 9} x its
+       line a match / a deletion
+    """
+    m = (4, 4)
+    for vo in voice_alphabet(full):
+        for sf in STAFF_ALPHA:
+            for lab in ("match", "deletion"):
+                sc = mk_score([(m, m, None)], [(0, 4)])
+                sc["notes"].append(note("x", 4, 8, "E", None, 4, vo, sf))
+                c = mk_case(sc)
+                yield delete_notes(c, ["x"]) if lab == "deletion" else c
+    for v1 in VOICE_PAIR_ALPHA:
+        for v2 in VOICE_PAIR_ALPHA:
+            if v1 == v2:
+                continue
+            for kind in VOICE_KINDS:
+                for lab in ("match", "deletion"):
+                    sc = mk_score([(m, m, (0, "major")), (m, None, None)], [(0, 4), (4, 8), (8, 16)])
+                    for n in sc["notes"]:
+                        n["voice"] = v1
+                    if kind == "plain":
+                        l2 = [note("a", 0, 8, "A", None, 2, v2, 2), note("b", 8, 16, "F", None, 2, v2, 2)]
+                    elif kind == "chord":
+                        l2 = [note("a", 0, 8, "A", None, 2, v2, 2), note("b", 0, 8, "F", None, 2, v2, 2),
+                              note("c", 8, 16, "G", None, 2, v2, 2)]
+                    elif kind == "tie":
+                        l2 = [note("a", 4, 8, "A", None, 2, v2, 2, tie="b"), note("b", 8, 12, "A", None, 2, v2, 2)]
+                    elif kind == "grace":
+                        l2 = [note("a", 0, 8, "A", None, 2, v2, 2), note("g", 8, 8, "B", -1, 2, v2, 2, grace=True),
+                              note("b", 8, 16, "F", None, 2, v2, 2)]
+                    else:
+                        l2 = [note("a", 0, 8, "A", None, 2, v2, 2, art=["staccato", "accent"], fing=2),
+                              note("b", 8, 16, "F", None, 2, v2, 2, art=["accent"])]
+                    sc["notes"] += l2
+                    c = mk_case(sc)
+                    if lab == "deletion":
+                        delete_notes(c, [n["id"] for n in l2 if n["id"] in {a[1] for a in c["align"]}])
+                    yield c
+    for k in range(1, (36 if full else 16) + 1):
+        for lab in ("match", "alternate"):
+            if lab == "alternate" and k < 2:
+                continue
+            sc = mk_score([(m, m, None)], [])
+            for v in range(1, k + 1):
+                st = STEPS[(2 * v) % 7]
+                # distinct pitches: the octave falls with the staff, inside a staff with the voice
+                sc["notes"].append(note("k%d" % v, 0, 8, st, None, 7 - (v - 1) // 7, v, (v - 1) // 4 + 1))
+            c = mk_case(sc)
+            if lab == "alternate":
+                delete_notes(c, ["k%d" % v for v in range(2, k + 1, 2)])
+            yield c
+    for version in VERSIONS:
+        for vo in VOICE_TEXT_ALPHA:
+            for sf in (1, 2, 9):
+                for lab in ("match", "deletion"):
+                    c = base_content(version)
+                    p = sorted(c["pnotes"])
+                    c["snotes"]["s2"].update(voice=vo, staff=sf)
+                    c["lines"] = [["match", "s1", p[0], 0], [lab, "s2", p[1] if lab == "match" else None, 0], ["match", "s3", p[2], 0]]
+                    yield dict(kind="text", content=c)
+
+
 def gen_chords(full):
     """chords and voices: two or three simultaneous notes with all duration combinations from {1,2,4 units},
     equal pitch in two voices (voice overlap) as match and as deletion; grace notes (1-2) before a main note at the
@@ -1680,6 +1773,15 @@ def spaces(tier, seed):
                     "triplet-led bars with divs 3, 6, 12"))
     sp.append(Space("attrs", lambda: gen_attrs(thorough), True,
                     "7 steps x 6 alters x 3 octaves x 4 (voice,staff); 16 articulation subsets x {match,deletion} x fingering"))
+    sp.append(Space("voices", lambda: gen_voices(thorough), True,
+                    "voice and staff numbers of 1-4 digits: note with voice in {%s, 199, 200, 255, 999, 1000, 1001} x staff 1..9 x "
+                    "matched/deleted; two layers with all ordered pairs of distinct voices over {1,2,9,10,11,12,20,100} x 5 kinds of "
+                    "the second layer (plain, chord, chain tied over the barline, grace + main note, articulations + fingering) x "
+                    "matched/deleted; parts numbered the MusicXML way (4 voices per staff), first k voices for k = 1..%d, all matched / "
+                    "every other deleted; hand-written files of 7 dialects x 14 voice numbers (1..1000) x staff {1,2,9} x "
+                    "match/deletion line. Staves stay below 10 (a staff number of two digits is read back as its last digit on "
+                    "the current tree: proposed_fixes/C08-s-staff-number-digits.diff)"
+                    % (("1..130", 36) if thorough else ("1..24, 29, 30, 31, 40, 50, 90, 99, 100, 101, 109, 110, 111, 120", 16))))
     sp.append(Space("chords", lambda: gen_chords(thorough), True,
                     "2-3 simultaneous notes, durations {1,2,4 quarters}^3, 2 onsets, equal/different pitch, match/deletion; "
                     "1-2 grace notes at 3 positions, with/without pickup, all label assignments"))
